@@ -22,3 +22,29 @@ Print Assumptions C02_readfrom.
 (* Read with any positive buffer size delivers exactly what WriteTo delivers, on every input *)
 Theorem C02_read_eq_writeto : reader_read_eq_writeto_stmt.  Proof. exact reader_read_eq_writeto. Qed.
 Print Assumptions C02_read_eq_writeto.
+
+(* ---- legacy frames (LegacyOption) ---- *)
+From LZ4V Require Import LegacySpec LegacyProofs.
+(* the round trip with `modern o` replaced by `fo_legacy o = true` is FALSE (finding F28): the Reader
+   takes a block-size word equal to the number of bytes decoded so far for the Linux-kernel trailer.
+   Witness: Write [1;2]; Flush; Write [3]; Close — replayed on the Go code with identical bytes *)
+Theorem C02_legacy_roundtrip_refuted : ~ legacy_roundtrip_naive_stmt.  Proof. exact legacy_roundtrip_refuted. Qed.
+Print Assumptions C02_legacy_roundtrip_refuted.
+(* the legacy round trip under the computable side condition legacy_unambiguous (no emitted size word
+   equals the running total mod 2^32), for every accepted option list, every level, raw blocks, any
+   length (also beyond 2^32) ... *)
+Theorem C02_legacy_roundtrip : legacy_roundtrip_stmt.  Proof. exact legacy_roundtrip. Qed.
+Print Assumptions C02_legacy_roundtrip.
+(* ... and the side condition is exact: the session is unambiguous iff WriteTo returns all the data *)
+Theorem C02_legacy_roundtrip_iff : legacy_roundtrip_iff_stmt.  Proof. exact legacy_roundtrip_iff. Qed.
+Print Assumptions C02_legacy_roundtrip_iff.
+(* sessions that are unambiguous by construction: at most 8 MiB written without Flush *)
+Theorem C02_legacy_small_noflush : legacy_small_noflush_stmt.  Proof. exact legacy_small_noflush. Qed.
+Print Assumptions C02_legacy_small_noflush.
+(* without Flush, up to 2056 MiB, if the second block does not compress to exactly 8 MiB *)
+Theorem C02_legacy_noflush_below_2056MiB : legacy_noflush_below_2056MiB_stmt.  Proof. exact legacy_noflush_below_2056MiB. Qed.
+Print Assumptions C02_legacy_noflush_below_2056MiB.
+(* the second manifestation of F28, no Flush needed: data with more than 257 full blocks whose 258th
+   block is incompressible (stored raw: size word 2^31 + 2^23 = the running total) is cut short *)
+Theorem C02_legacy_incompressible_truncates : legacy_incompressible_truncates_stmt.  Proof. exact legacy_incompressible_truncates. Qed.
+Print Assumptions C02_legacy_incompressible_truncates.
